@@ -53,6 +53,11 @@ func genC09Blocking(r *core.Rand, env *core.Env, run int) *Scenario {
 	for i := 0; i < nq; i++ {
 		p := ClientProg{Name: fmt.Sprintf("pop%d", i), Role: "popper", Pipeline: 1}
 		for j := 0; j < 1+r.Intn(3); j++ {
+			if r.Bool(0.3) {
+				// plain pops compete for the same elements
+				p.Steps = append(p.Steps, Step{Kind: "cmd", Args: bs(pick(r, []string{"lpop", "rpop"}), pick(r, queues))})
+				continue
+			}
 			a := bs(pick(r, []string{"blpop", "blpop", "brpop"}))
 			if len(queues) == 2 && r.Bool(0.4) {
 				if r.Bool(0.5) {
@@ -104,6 +109,24 @@ func judgeC09Blocking(sc *Scenario, rr *RunResult, env *core.Env) (string, strin
 		}
 		for _, op := range c.ops {
 			if !op.Done {
+				continue
+			}
+			if !blockingPop(op.Args) {
+				// LPOP / RPOP: nil or one element of that list
+				if op.Reply.IsNil() {
+					continue
+				}
+				val, key := string(op.Reply.Str), string(op.Args[1])
+				if !op.Reply.StringLike() {
+					return "C09/blocking/reply-shape", fmt.Sprintf("client %d: %s replied %s", ci, cmdString(op.Args), op.Reply.String())
+				}
+				if q, ok := pushed[val]; !ok || q != key {
+					return "C09/blocking/popped-unknown", fmt.Sprintf("client %d: %s returned %q, which was never pushed to %q", ci, cmdString(op.Args), val, key)
+				}
+				if prev, dup := poppedBy[val]; dup {
+					return "C09/blocking/popped-twice", fmt.Sprintf("element %q went to two poppers (%s and client %d)", val, prev, ci)
+				}
+				poppedBy[val] = fmt.Sprintf("client %d", ci)
 				continue
 			}
 			to, _ := strconv.Atoi(string(op.Args[len(op.Args)-1]))
